@@ -473,6 +473,28 @@ class Canon:
             return mk(op, tuple(sorted({self.canon(x) for x in a[0]}, key=lambda z: z.uid)))
         if op == "dict":
             return mk(op, tuple((self.canon(k), self.canon(v)) for k, v in a[0]))
+        if op == "comp" and len(a) == 3 and len(a[2]) == 1 and not a[2][0][1]:
+            # a comprehension over a literal container is that container's image: [f(x) for x in (p, q)] == [f(p), f(q)],
+            # {k: v for k in {"a": 1, "b": 2}} iterates the keys in order
+            it = a[2][0][0]
+            src = it
+            while src.op in ("modconst", "assume"):
+                src = src.args[1]
+            items = None
+            if src.op in ("list", "tuple"):
+                items = list(src.args[0])
+            elif src.op == "dict":
+                items = [k for k, _ in src.args[0]]
+            if items is not None and len(items) <= 16:
+                from .terms import substitute as _subst
+                var = mk("elem", it)
+                vals = [_subst(a[1], {var: x}) for x in items]
+                if a[0] == "dict" and all(v.op == "kv" for v in vals):
+                    return self.canon(mk("dict", tuple((v.args[0], v.args[1]) for v in vals)))
+                if a[0] in ("list", "gen"):
+                    return self.canon(mk("list", tuple(vals)))
+                if a[0] == "set":
+                    return self.canon(mk("set", tuple(vals)))
         # generic: canonicalise children
         return mk(op, *[self._canon_any(x) for x in a])
 
